@@ -1,6 +1,6 @@
 (* C10 — concurrent requests and block events behave as if executed one at a time.
-   Statements only (proofs: ConcTowerProofs.v, ConcBreach.v, ConcLin.v, ConcReg.v).  Model: ConcTower.v — the thread
-   programs of register / add_appointment / get_appointment / block connected / block disconnected at
+   Statements only (proofs: ConcTowerProofs.v, ConcBreach.v, ConcLin.v, ConcReg.v, ConcPurge.v).  Model: ConcTower.v — the thread
+   programs of register / add_appointment / get_appointment / get_subscription_info / block connected / block disconnected at
    lock-acquisition granularity, `run_sched` = all interleavings at EVENT granularity (every lock
    acquisition, release, action under locks and atomic height access is a step of its own).
 
@@ -18,16 +18,24 @@
      C10_registrations_linearizable                register || register || ... (any number, same or different users):
                                                    state and receipts of SOME sequential order
      C10_concurrent_topups_all_counted             n concurrent renewals of one user: balance = initial + n top-ups
+     C10_acknowledged_registration_survives_purge  register || the gatekeeper's purge (ONE critical section of `users`
+                                                   since the repair): RegOk(s, start, e) acknowledged => the user is
+                                                   registered with exactly these values, or that subscription is itself
+                                                   outdated at the block's height.  Never acknowledged and deleted
+     C10_add_purge_no_abort, C10_get_never_aborts  whatever the other threads do (the purging block included):
+                                                   add_appointment aborts nowhere but in the responder's get_height unwrap
+                                                   (unreachable: C11), get_appointment nowhere; they die only of a lock
+                                                   somebody else poisoned
+     C10_add_purge_refused, C10_get_purge_refused  the schedules that used to kill the tower (user purged between
+                                                   authentication and charge / expiry test): refused, nothing poisoned
    REFUTED by a witness schedule (each is replayed on the real code by the check):
      C10_single_charge_refuted                     two identical submissions are charged twice
-     C10_register_purge_not_linearizable           renewal acknowledged, user deleted
-     C10_get_purge_aborts, C10_add_purge_aborts_and_poisons
      C10_add_connect_not_linearizable              height stamps of neither order (the three guarantees hold)
    OPEN (no proof, no counterexample; the exhaustive controlled exploration of the check finds every final
-   state of these pairs equal to a sequential order within its preemption bound):
+   state of these pairs equal to a sequential order within its preemption bound, up to the height stamps):
      register || add, add || add (different appointment), get || register/add/connect
-     without purge, register/add/get || disconnect, register || connect without purge. *)
-From TeosModel Require Import Base TxIndex Tower TowerInv Crash ConcTower ConcTowerProofs ConcBreach ConcLin ConcReg.
+     without purge, register/add/get || disconnect, register || the watcher's and the responder's part of a block. *)
+From TeosModel Require Import Base TxIndex Tower TowerInv Crash ConcTower ConcTowerProofs ConcBreach ConcLin ConcReg ConcPurge.
 From Coq Require Import Permutation.
 From TeosModel.Gen Require Consts.
 Local Open Scope N_scope.
@@ -35,7 +43,6 @@ Local Open Scope N_scope.
 (* The thread program of an operation, run with no interference, is the sequential step of Tower.v:
    the sequential model (C01-C09, C11) and the concurrent model share every line of logic. *)
 Theorem C10_thread_programs_refine_sequential_model le sc t o :
-  (forall s, o <> OGetSub s) ->
   unwrap (exec (prog_of_op le sc t o) (set_rpc_log t [])) = step le t o sc.
 Proof. exact (exec_is_step le sc t o). Qed.
 
@@ -193,6 +200,9 @@ Proof. exact (readonly_threads_linearizable t ps sched). Qed.
 Theorem C10_get_is_read_only signer loc : readonly (get_p signer loc).
 Proof. exact (get_readonly signer loc). Qed.
 
+Theorem C10_get_subscription_info_is_read_only signer : readonly (getsub_p signer).
+Proof. exact (getsub_readonly signer). Qed.
+
 Example C10_reads_instance : Forall readonly [get_p (Some 1) 7; get_p (Some 2) 7].
 Proof. constructor; [apply get_readonly|]. constructor; [apply get_readonly|constructor]. Qed.
 
@@ -222,29 +232,77 @@ Example C10_registrations_instance :
   option_map u_slots (gk_get (fst r) 1) = Some 40.
 Proof. vm_compute. split; reflexivity. Qed.
 
-(* ---- linearizability: what is refuted ----------------------------------------------------------------- *)
+(* ---- the purge --------------------------------------------------------------------------------------------
+   register(u)  ||  the gatekeeper's listener for the block at height h (Gatekeeper::filtered_block_connected: who
+   is outdated is decided, and the users are removed from memory and from the database, in ONE critical section
+   of `users`).  Whatever the schedule: if the request is answered RegOk(slots, start, expiry) and both threads
+   return, then in the final state u is in the gatekeeper's memory and in table users with exactly the
+   acknowledged values, or the acknowledged subscription is itself outdated at h (expiry + expiry_delta <= h:
+   removed as in the sequential order register ; block).  Never acknowledged and deleted.
+   Hypotheses on the initial state (true in every reachable state: TowerInv.inv_user_rows, inv_mem_nodup): the
+   users the gatekeeper knows have their rows, and the map has one entry per user. *)
+Theorem C10_acknowledged_registration_survives_purge u h t0 sched tf s st e :
+  user_row_ok t0 u -> NoDup (map fst (gk_users t0)) ->
+  run_sched t0 [register_p u; gk_connect_p h ;;; Ret OBlockRes] sched
+  = (tf, [Some (TOut (ORegisterRes (RegOk s st e))); Some (TOut OBlockRes)]) ->
+  (gk_get tf u = Some (mk_uinfo s st e) /\ aget (db_users tf) u = Some (mk_uinfo s st e)) \/
+  e + c_delta (cfg tf) <= h.
+Proof. exact (acknowledged_registration_survives_purge u h t0 sched tf s st e). Qed.
 
-(* register || the block that purges the user: the renewal is acknowledged (receipt with the extended
-   expiry) and the user is deleted nevertheless; either sequential order keeps a user row *)
-Theorem C10_register_purge_not_linearizable :
-  let ps := [register_p 1; w_connect_purge] in
-  let r := run_sched w_purge ps w_lost_renewal in
-  snd r = [Some (TOut (ORegisterRes (RegOk 19 120 124))); Some (TOut OBlockRes)] /\
-  db_users (fst r) = [] /\ gk_users (fst r) = [] /\ db_apps (fst r) = [] /\
-  db_users (fst (run_sched w_purge ps (in_order [0; 1]%nat))) = [(1, mk_uinfo 19 120 124)] /\
-  db_users (fst (run_sched w_purge ps (in_order [1; 0]%nat))) = [(1, mk_uinfo 10 122 124)].
-Proof. exact renewal_acknowledged_and_lost. Qed.
+(* the second thread is the gatekeeper's part (the first listener) of the block event's thread program *)
+Example C10_purge_thread_is_first_listener le sc hash txs h :
+  connect_p le sc hash txs h =
+  gk_connect_p h ;;; (w_connect_p sc hash txs h ;;; (r_connect_p le sc hash txs h ;;; Ret tt)).
+Proof. reflexivity. Qed.
 
-Theorem C10_get_purge_aborts :
-  snd (run_sched w_purge [get_p (Some 1) 7; w_connect_purge] w_get_purged) =
-  [Some (TOut (OAbort S_api_expired_unwrap)); Some (TOut OBlockRes)].
-Proof. exact get_aborts_when_purged_in_between. Qed.
+(* non-vacuity on the state of the old witness (user 1: expiry 122, no grace; block 122 purges him): the schedule
+   that used to lose the renewal (the purge decides, the renewal is served, the purge removes) now serialises
+   the two critical sections - purge first: a fresh subscription; renewal first: the user stays *)
+Example C10_purge_instances :
+  user_row_ok w_purge 1 /\ NoDup (map fst (gk_users w_purge)) /\
+  let ps := [register_p 1; gk_connect_p 122 ;;; Ret OBlockRes] in
+  let r1 := run_sched w_purge ps (repeat 1%nat 3 ++ repeat 0%nat 40 ++ repeat 1%nat 200 ++ repeat 0%nat 40) in
+  let r2 := run_sched w_purge ps (repeat 0%nat 6 ++ repeat 1%nat 3 ++ repeat 0%nat 40 ++ repeat 1%nat 200) in
+  snd r1 = [Some (TOut (ORegisterRes (RegOk 10 121 123))); Some (TOut OBlockRes)] /\
+  db_users (fst r1) = [(1, mk_uinfo 10 121 123)] /\
+  snd r2 = [Some (TOut (ORegisterRes (RegOk 19 120 124))); Some (TOut OBlockRes)] /\
+  db_users (fst r2) = [(1, mk_uinfo 19 120 124)].
+Proof. split; [vm_compute; reflexivity|]. split; [vm_compute; repeat constructor; intros []|]. vm_compute. repeat split; reflexivity. Qed.
 
-Theorem C10_add_purge_aborts_and_poisons :
+(* A request panics only at a site of its own program, whatever the other threads (any number, the purging block
+   included) do, in every schedule.  add_appointment: the only site left on its whole path is the responder's
+   get_height unwrap (C11 proves it unreachable); the unwraps on the vanished user (has_subscription_expired,
+   add_update_appointment) and on the failed INSERT are gone: the request is refused.  Since a thread poisons a
+   lock only by panicking while holding it, add_appointment and get_appointment poison nothing. *)
+Theorem C10_add_purge_no_abort sc signer loc b delay sig t ps sched j s :
+  nth_error ps j = Some (add_p sc signer loc b delay sig) ->
+  nth_error (snd (run_sched t ps sched)) j = Some (Some (TOut (OAbort s))) -> s = S_r_get_height_unwrap.
+Proof.
+  intros Hp. exact (only_own_aborts (fun s => s = S_r_get_height_unwrap) t ps sched j _ s Hp (add_sites sc signer loc b delay sig)).
+Qed.
+
+Theorem C10_get_never_aborts signer loc t ps sched j s :
+  nth_error ps j = Some (get_p signer loc) ->
+  nth_error (snd (run_sched t ps sched)) j = Some (Some (TOut (OAbort s))) -> False.
+Proof.
+  intros Hp. exact (only_own_aborts (fun _ => False) t ps sched j _ s Hp (get_sites signer loc)).
+Qed.
+
+(* the two schedules that used to kill the tower, on the same state: the user is purged after the request has
+   authenticated him; the request is refused, no lock is poisoned, the block is processed *)
+Theorem C10_get_purge_refused :
+  let c := run_config (init_config w_purge [get_p (Some 1) 7; w_connect_purge]) w_get_purged in
+  map thread_result (cf_threads c) = [Some (TOut (OGetRes GetAuth)); Some (TOut OBlockRes)] /\
+  cf_poisoned c = [].
+Proof. exact get_refused_when_purged_in_between. Qed.
+
+Theorem C10_add_purge_refused :
   let c := run_config (init_config w_purge [add_p [] (Some 1) 8 (mk_blob 8 (Some 108) 77) 20 2; w_connect_purge]) w_add_purged in
-  map thread_result (cf_threads c) = [Some (TOut (OAbort S_gk_charge_user_unwrap)); Some (TOut OBlockRes)] /\
-  cf_poisoned c = [L_users].
-Proof. exact add_aborts_and_poisons_when_purged_in_between. Qed.
+  map thread_result (cf_threads c) = [Some (TOut (OAddRes AddAuthOrSlots)); Some (TOut OBlockRes)] /\
+  cf_poisoned c = [] /\ db_apps (cf_tower c) = [] /\ db_users (cf_tower c) = [].
+Proof. exact add_refused_when_purged_in_between. Qed.
+
+(* ---- linearizability: what is refuted ----------------------------------------------------------------- *)
 
 (* add_appointment || the block with its dispute is NOT linearizable in the height stamps (start_block 120
    next to a tracker stamped 121; the orders give 120/120 and 121/121) — while C10_no_missed_breach holds *)
@@ -267,9 +325,12 @@ Print Assumptions C10_single_charge_refuted.
 Print Assumptions C10_single_charge_if_row_visible.
 Print Assumptions C10_reads_linearizable.
 Print Assumptions C10_get_is_read_only.
+Print Assumptions C10_get_subscription_info_is_read_only.
 Print Assumptions C10_registrations_linearizable.
 Print Assumptions C10_concurrent_topups_all_counted.
-Print Assumptions C10_register_purge_not_linearizable.
-Print Assumptions C10_get_purge_aborts.
-Print Assumptions C10_add_purge_aborts_and_poisons.
+Print Assumptions C10_acknowledged_registration_survives_purge.
+Print Assumptions C10_add_purge_no_abort.
+Print Assumptions C10_get_never_aborts.
+Print Assumptions C10_get_purge_refused.
+Print Assumptions C10_add_purge_refused.
 Print Assumptions C10_add_connect_not_linearizable.
